@@ -961,6 +961,89 @@ def rule_sk_paren(cx, rep, port):
         rep.holds('expression fragments', (cx.port(port).files[cx.engine_mod(port)], 0), 'no expression fragment is an operand of an engine operator')
 
 
+def _unnest_model(cx, rep, port, p, mod, fd):
+    """select_unnested decided on its abstract runs: for UNNEST lists of 0, 1 and 3 elements, records with the marker at the first, a
+    middle and the last position, and every sequence of verdicts of select_simple: one call per list element, in list order, each
+    with a new list equal to the record with the marker replaced by the element; the expansion stops at the first refusal and
+    returns False exactly then (True for the empty list); the record handed in is left as it was."""
+    from .. import absexec as AX
+    params = [a.arg for a in fd.args.args]
+    bad = {}
+    n = 0
+    try:
+        for n_el in (0, 1, 3):
+            for shape in (['F0', 'M', 'F2'], ['M'], ['F0', 'F1', 'M']):
+                ctx = AX.Abs('Ctx')
+                els = [AX.Abs('El', id='U%d' % i) for i in range(n_el)]
+                marker = AX.Abs('Obj', cls='UNNEST')
+                toks = {k: AX.Abs('Fld', id=k) for k in ('F0', 'F1', 'F2')}
+                record = [marker if k == 'M' else toks[k] for k in shape]
+                original = list(record)
+                calls = []
+
+                def on_name(ex, node, name):
+                    if name == 'query_context':
+                        return ctx
+                    if name in ('UNNEST', 'UnnestMarker', 'Unnest', 'UNFOLD'):
+                        return ('class', 'UNNEST')
+                    return AX.NOT_HANDLED
+
+                def on_attr(ex, node, obj, attr, els=els):
+                    if obj is ctx and attr == 'unnest_list':
+                        return list(els)
+                    return AX.NOT_HANDLED
+
+                def on_call(ex, node, fname, recv, args, calls=calls):
+                    short = node.func.attr if isinstance(node.func, ast.Attribute) else fname.split('.')[-1]
+                    if short == 'select_simple' and args and isinstance(args[-1], list):
+                        if not hasattr(ex.run, 'emitted'):
+                            ex.run.emitted = []
+                        ex.run.emitted.append((args[-1], list(args[-1])))
+                        return ex.choose('verdict', [True, False])
+                    return AX.NOT_HANDLED
+                ex = AX.Explorer(p, mod, on_call=on_call, on_attr=on_attr, on_name=on_name, max_choices=4, follow=False)
+                args = []
+                for prm in params:
+                    args.append(ctx if prm == 'query_context' else (record if prm == params[-1] else AX.Abs('Opaque')))
+                runs, cut = ex.explore(fd, args)
+                for r in runs:
+                    n += 1
+                    verdicts = [v for lab, _, v in r.choices if lab == 'verdict']
+                    emitted = getattr(r, 'emitted', [])
+                    # expected number of calls: up to and including the first refusal
+                    want_calls = n_el if False not in verdicts[:n_el] else verdicts.index(False) + 1
+                    desc = 'UNNEST list of {} element(s), marker at position {} of {}, verdicts {}'.format(n_el, shape.index('M') + 1, len(shape), verdicts)
+                    kind, val, node = r.outcome
+                    if kind != 'return':
+                        bad.setdefault('unnest verdict', '{}: raises {}'.format(desc, getattr(val, 'kind', val)))
+                        continue
+                    if len(emitted) != want_calls:
+                        bad.setdefault('unnest count' if False not in verdicts else 'unnest verdict', '{}: select_simple is called {} time(s) instead of {}'.format(desc, len(emitted), want_calls))
+                        continue
+                    want_ret = False not in verdicts[:want_calls]
+                    if val is not want_ret and not (isinstance(val, bool) and val == want_ret):
+                        bad.setdefault('unnest verdict', '{}: select_unnested returns {!r} instead of {}'.format(desc, val, want_ret))
+                    for i, (obj, snap) in enumerate(emitted):
+                        want = [els[i] if x is marker else x for x in original]
+                        if not (len(snap) == len(want) and all(a is b for a, b in zip(snap, want))):
+                            bad.setdefault('unnest order', '{}: call {} receives a record that is not the input record with the marker replaced by element {}'.format(desc, i + 1, i + 1))
+                        if obj is record or any(obj is o2 for o2, _ in emitted[:i]):
+                            bad.setdefault('unnest copy', '{}: call {} receives {} - a writer that keeps its records would see them change'.format(desc, i + 1, 'the input record itself' if obj is record else 'the same list object as an earlier call'))
+                    if not (len(record) == len(original) and all(a is b for a, b in zip(record, original))):
+                        bad.setdefault('unnest copy', '{}: the record handed to select_unnested is modified in place'.format(desc))
+    except (Undecided, AX.Cut, AX._NeedChoice, KeyError, IndexError, TypeError) as e_:
+        import os
+        if os.environ.get('RBQL_VERIF_DEBUG'):
+            print('SK-UNNEST-POS model gave up:', type(e_).__name__, e_)
+        return False
+    good = {'unnest verdict': 'a refusal ends the expansion with False; otherwise True (also for an empty list)', 'unnest count': 'one emission per list element, none for an empty list',
+            'unnest order': 'one output record per list element, in list order, the marker replaced by the element', 'unnest copy': 'every emission gets a list of its own; the input record is left untouched',
+            'unnest position': 'the position of the UNNEST marker is located in the record of the current call'}
+    for k in ('unnest verdict', 'unnest count', 'unnest order', 'unnest copy'):
+        rep.decide(k not in bad, k, fd, '{} ({} abstract runs)'.format(good[k], n), bad.get(k, ''))
+    return True
+
+
 def rule_sk_unnest_pos(cx, rep, port):
     from ..snippet import inline_single_defs
     """select_unnested: the position that receives each list element is found in the record of the *current* call"""
@@ -969,7 +1052,9 @@ def rule_sk_unnest_pos(cx, rep, port):
     fd = p.func(mod, 'compile_and_run.select_unnested' if port == 'py' else 'select_unnested')
     params = [a.arg for a in fd.args.args]
     folded = params[-1]
-    _unnest_verdict(cx, rep, port, fd)
+    modelled = _unnest_model(cx, rep, port, p, mod, fd)
+    if not modelled:
+        _unnest_verdict(cx, rep, port, fd)
     stores = [n for n in walk_no_nested(fd) if isinstance(n, ast.Assign) and isinstance(n.targets[0], ast.Subscript) and not isinstance(n.targets[0].slice, ast.Slice)]
     stores = [s for s in stores if isinstance(s.targets[0].value, ast.Name)]
     if len(stores) == 1 and isinstance(stores[0].targets[0].slice, ast.Name):
@@ -1028,6 +1113,8 @@ def rule_sk_unnest_pos(cx, rep, port):
                 if bare:
                     rep.violated('unnest element placement', c, '`{}` hands the UNNEST element to concat() unwrapped: concat spreads array-valued elements, so a list element contributes several fields (or none) instead of exactly one'.format(node_text(c, 80)))
                     return
+    if modelled:
+        return
     # a fresh copy per element, elements in order, verdict propagated
     loops = [lp for lp in walk_no_nested(fd) if isinstance(lp, ast.For) and 'unnest_list' in node_text(lp.iter, 200)]
     if len(loops) != 1:
